@@ -1467,14 +1467,17 @@ func (dht *FullRT) findProvidersAsyncRoutine(ctx context.Context, key multihash.
 	queryctx, cancelquery := context.WithCancel(ctx)
 	defer cancelquery()
 
-	fn := func(ctx context.Context, p peer.ID) error {
+	// opctx is the per-peer request context of execOnMany: it is cancelled as soon
+	// as enough peers have answered, which must abort outstanding requests but not
+	// the delivery of providers that were already received.
+	fn := func(opctx context.Context, p peer.ID) error {
 		// For DHT query command
-		routing.PublishQueryEvent(ctx, &routing.QueryEvent{
+		routing.PublishQueryEvent(opctx, &routing.QueryEvent{
 			Type: routing.SendingQuery,
 			ID:   p,
 		})
 
-		provs, closest, err := dht.protoMessenger.GetProviders(ctx, p, key)
+		provs, closest, err := dht.protoMessenger.GetProviders(opctx, p, key)
 		if err != nil {
 			return err
 		}
@@ -1499,9 +1502,9 @@ func (dht *FullRT) findProvidersAsyncRoutine(ctx context.Context, key multihash.
 						attribute.Stringer("peer", prov.ID),
 						attribute.Stringer("from", p),
 					))
-				case <-ctx.Done():
+				case <-queryctx.Done():
 					logger.Debug("context timed out sending more providers")
-					return ctx.Err()
+					return queryctx.Err()
 				}
 			}
 			if !findAll && psSize() >= count {
@@ -1514,7 +1517,7 @@ func (dht *FullRT) findProvidersAsyncRoutine(ctx context.Context, key multihash.
 		// Give closer peers back to the query to be queried
 		logger.Debugf("got closer peers: %d %s", len(closest), closest)
 
-		routing.PublishQueryEvent(ctx, &routing.QueryEvent{
+		routing.PublishQueryEvent(opctx, &routing.QueryEvent{
 			Type:      routing.PeerResponse,
 			ID:        p,
 			Responses: closest,
